@@ -401,12 +401,17 @@ def contended_calls(dc, sc, res, rng, params, label):
     from ..sched import Sched, Recorder
     d = sc.new()
     clock = probe.set_clock(probe.VClock())
-    p = dict(params, DATABASE_TIMEOUT=0, OPTIONS={'disk_min_file_size': 64})
+    options = {'disk_min_file_size': 64}
+    if rng.random() < 0.4:
+        # lookups that keep books (statistics, access order) are write transactions inside the library
+        options.update(rng.choice([{'statistics': True}, {'eviction_policy': 'least-recently-used'},
+                                   {'eviction_policy': 'least-frequently-used'}]))
+    p = dict(params, DATABASE_TIMEOUT=0, OPTIONS=options)
     shared = rng.random() < 0.5
     base = DjangoCache(d, p)
     n = rng.randrange(2, 4)
     backends = [base if shared else DjangoCache(d, p) for _ in range(n)]
-    what = rng.choice(['add', 'add', 'add expired', 'incr', 'pop', 'delete'])
+    what = rng.choice(['add', 'add', 'add expired', 'incr', 'pop', 'delete', 'has_key', 'has_key'])
     ver = rng.choice([None, 2])
     vkw = {} if ver is None else {'version': ver}
     key = rng.choice(['k', 'a b', ('t', 1)])
@@ -415,7 +420,7 @@ def contended_calls(dc, sc, res, rng, params, label):
         clock.advance(60.0)
     elif what == 'incr':
         base.set(key, 10, timeout=None, **vkw)
-    elif what in ('pop', 'delete'):
+    elif what in ('pop', 'delete', 'has_key'):
         base.set(key, 'L' * 100, timeout=None, **vkw)
     sch = Sched(rng, clock, strategy=rng.choice(['random', 'random', 'preempt']), max_steps=20000,
                 preempt_points={rng.randrange(0, 60) for _ in range(3)})
@@ -428,6 +433,16 @@ def contended_calls(dc, sc, res, rng, params, label):
                 rec.call(ci, 'add', (key,), lambda: b.add(key, 'from-%d' % ci, timeout=None, **vkw))
             elif what == 'incr':
                 rec.call(ci, 'incr', (key,), lambda: b.incr(key, ci + 1, **vkw))
+            elif what == 'has_key':
+                # client 0 asks whether the key is there (it is, all the time) while the others write other keys: being
+                # busy is no reason to say no
+                if ci == 0:
+                    for _ in range(3):
+                        rec.call(ci, 'has_key', (key,), lambda: b.has_key(key, **vkw))
+                        rec.call(ci, 'contains', (key,), lambda: (key in b) if ver is None else b.has_key(key, version=ver))
+                else:
+                    for j in range(3):
+                        rec.call(ci, 'set', ('other',), lambda: b.set('other-%d-%d' % (ci, j), 'M' * 100, timeout=None))
             elif what == 'pop':
                 rec.call(ci, 'pop', (key,), lambda: b.pop(key, 'MISS', **vkw))
             else:
@@ -455,6 +470,11 @@ def contended_calls(dc, sc, res, rng, params, label):
             if final != want or sorted(r[1] for r in results)[-1] != want:
                 res.violation('%d threads incremented one key at once: results %r, the key now holds %r, expected %r' % (
                     n, results, final, want), wit)
+        elif what == 'has_key':
+            answers = [(o['kind'], o['result']) for o in rec.ops if o['op'] in ('has_key', 'contains')]
+            if any(a != ('ok', True) for a in answers):
+                res.violation('has_key / `in` for a key that is present all the time, asked while %d other thread(s) were '
+                              'writing other keys (options %r): %r' % (n - 1, options, answers), wit)
         elif what == 'pop':
             if sorted(map(repr, results)) != sorted(map(repr, [('ok', 'L' * 100)] + [('ok', 'MISS')] * (n - 1))) or final != 'MISS':
                 res.violation('%d threads popped one key at once: results %r' % (n, [(k, str(v)[:8]) for k, v in results]), wit)
